@@ -24,6 +24,7 @@ type Env struct {
 	qvars     map[string]Val
 	pkg       string
 	reach     Term
+	callSite  bool // evaluating a callee's postcondition at a call site
 }
 
 func (e *Engine) newEnv(fr *Frame, st *State) *Env {
@@ -145,7 +146,9 @@ func (env *Env) eval(x Expr) (Val, error) {
 			}
 			c.qvars[qv.Name] = Val{T: t, L: []Term{{name, sort}}}
 		}
+		env.e.inQuant++
 		body, err := c.evalBool(n.Body)
+		env.e.inQuant--
 		if err != nil {
 			return Val{}, err
 		}
@@ -711,7 +714,11 @@ func (env *Env) callExpr(n ECall) (Val, error) {
 		if len(v.L) != 2 {
 			return Val{}, fmt.Errorf("as() on non-interface")
 		}
-		if _, isPtr := t.Underlying().(*types.Pointer); isPtr {
+		if pt, isPtr := t.Underlying().(*types.Pointer); isPtr {
+			if env.e.inQuant == 0 {
+				env.e.assume(True, Implies(Eq(v.L[0], IntLit(int64(env.e.P.typeTag(t)))),
+					Or(Eq(v.L[1], IntLit(0)), Eq(T(SInt, "(rtype %s)", v.L[1]), IntLit(int64(env.e.P.typeTag(pt.Elem())))))))
+			}
 			return Val{T: t, L: []Term{v.L[1]}}, nil
 		}
 		return env.e.load(env.st, &Addr{Kind: aHeap, Ref: v.L[1], Root: t, T: t}), nil
@@ -763,13 +770,71 @@ func (env *Env) callExpr(n ECall) (Val, error) {
 			cs = append(cs, Eq(cur.L[i], z.L[i]))
 		}
 		return boolVal(And(cs...)), nil
+	case "onlyArrayChanged":
+		// onlyArrayChanged(s): among the backing arrays of s's element type that existed before the call,
+		// only the one s points to may have changed (s is normally old(<slice>)).
+		if err := argN(1); err != nil {
+			return Val{}, err
+		}
+		v, err := env.eval(n.Args[0])
+		if err != nil {
+			return Val{}, err
+		}
+		sl, ok := v.T.Underlying().(*types.Slice)
+		if !ok {
+			return Val{}, fmt.Errorf("onlyArrayChanged() needs a slice")
+		}
+		oldSt := env.old
+		if oldSt == nil {
+			oldSt = env.e.old
+		}
+		bound := "alloc0"
+		if env.callSite {
+			bound = "(+ alloc0 1000000)"
+		}
+		env.e.declare("alloc0", SInt)
+		var cs []Term
+		for _, lf := range Layout(sl.Elem()) {
+			name := "E." + typeID(sl.Elem()) + "." + lf.Path
+			sort := ArraySort(SInt, ArraySort(SInt, lf.Sort))
+			cur := env.st.comp(name, sort)
+			old := oldSt.comp(name, sort)
+			if cur.S == old.S {
+				continue
+			}
+			cs = append(cs, T(SBool, "(forall ((oa Int)) (! (=> (and (<= oa %s) (not (= oa %s))) (= (select %s oa) (select %s oa))) :pattern ((select %s oa))))", bound, v.L[0], cur, old, cur))
+		}
+		return boolVal(And(cs...)), nil
+	case "payload":
+		// the reference an interface value carries
+		if err := argN(1); err != nil {
+			return Val{}, err
+		}
+		v, err := env.eval(n.Args[0])
+		if err != nil {
+			return Val{}, err
+		}
+		if len(v.L) != 2 {
+			return Val{}, fmt.Errorf("payload() of a non-interface")
+		}
+		return intVal(v.L[1]), nil
 	case "fresh":
 		if err := argN(1); err != nil {
 			return Val{}, err
 		}
-		v, err := env.evalTerm(n.Args[0])
+		fv, err := env.eval(n.Args[0])
 		if err != nil {
 			return Val{}, err
+		}
+		var v Term
+		if _, isSl := fv.T.Underlying().(*types.Slice); isSl && len(fv.L) == 4 {
+			v = fv.L[0] // a slice is fresh when its backing array is
+		} else if fv.Addr != nil {
+			v = env.e.reify(env.st, env.reach, fv)
+		} else if len(fv.L) == 1 {
+			v = fv.L[0]
+		} else {
+			return Val{}, fmt.Errorf("fresh() of a composite value")
 		}
 		env.e.declare("alloc0", SInt)
 		return boolVal(T(SBool, "(> %s alloc0)", v)), nil
